@@ -9,7 +9,11 @@ loop over `s.Children` binding a sub-surface, `if !ss.containsPoint(int(col), in
 interpreted body of `containsPoint`: one boolean expression, evaluated by `GoSyn.evalB` over the receiver's fields and the two
 arguments), the `uint16` subtractions `col - uint16(ss.Origin.Col)` (wrap-around at 65536: `u16`), the RECURSIVE calls
 `hitTest(ss.Surface, hits, local_col, local_row)` and `f.childHasFocus(c.Surface)` (the body again; fuel = depth of the
-surface tree), `s.Widget == f.focused`, `f.path = append(f.path, s.Widget)`, `return`.  Anything else is `none`.  Core Lean only.
+surface tree), `s.Widget == f.focused`, `f.path = append(f.path, s.Widget)`, `return`; and `focusHandler.findPath`: `f.path = []Widget{}`,
+`ok := f.childHasFocus(f.lastFrame)` (the interpreted callee; the zero `Surface` before the first frame has a nil widget and no
+children), the test `f.root != f.lastFrame.Widget || len(f.path) == 0`, `append(f.path, f.root)`, and the in-place reversal loop
+`for i := 0; i < len(f.path)/2; i++ { f.path[i], f.path[len(f.path)-1-i] = f.path[len(f.path)-1-i], f.path[i] }` with CHECKED
+index expressions.  Anything else is `none`.  Core Lean only.
 -/
 import VaxisModel.Model.GoSyn
 import VaxisModel.Model.DynExec
@@ -28,6 +32,10 @@ structure TM where
   hit   : List (String × Hit) := []
   focused : Id := 0
   path  : List Id := []
+  /-- `findPath`: the root widget, `f.lastFrame` (`none` = the zero `Surface`: nil widget, no children), bool locals -/
+  root  : Id := 0
+  frame : Option STree := none
+  flags : List (String × Bool) := []
 
 inductive TCtl where
   | norm | cont
@@ -64,11 +72,42 @@ def tevBool (env : TEnv) (m : TM) : Expr → Option Bool
     | some k, some x, some y => env.cp k x y
     | _, _, _ => none
   | .bin "==" (.var a) (.var "r.focused") => (find m.ids a).map (fun w => decide (w = m.focused))
+  | .bin "||" (.bin "!=" (.var "r.root") (.var "r.lastFrame.Widget")) (.bin "==" (.arg (.call (.var "len")) (.var "r.path")) (.int 0)) =>
+    some ((match m.frame with | none => true | some t => decide (m.root ≠ t.id)) || decide (m.path.length = 0))
+  | .bin "<" (.var i) (.bin "/" (.arg (.call (.var "len")) (.var "r.path")) (.int 2)) =>
+    (find m.ints i).map (fun v => decide (v < ((m.path.length / 2 : Nat) : Int)))
   | _ => none
+
+/-- `l[i], l[j] = l[j], l[i]` with checked indices. -/
+def swapIdx (l : List Id) (i j : Nat) : Option (List Id) :=
+  match l[i]?, l[j]? with
+  | some a, some b => some ((l.set i b).set j a)
+  | _, _ => none
+
+/-- The index expressions of `findPath`'s reversal loop: `i` and `len(f.path) - 1 - i`. -/
+def isSwap (i : String) (e1 e2 : Expr) : Bool :=
+  e1 == .pair (.index (.var "r.path") (.var i)) (.index (.var "r.path") (.bin "-" (.bin "-" (.arg (.call (.var "len")) (.var "r.path")) (.int 1)) (.var i))) &&
+  e2 == .pair (.index (.var "r.path") (.bin "-" (.bin "-" (.arg (.call (.var "len")) (.var "r.path")) (.int 1)) (.var i))) (.index (.var "r.path") (.var i))
 
 def tatom (env : TEnv) (m : TM) (l : Line) : TRes :=
   match l.kind, l.e1, l.e2 with
   | .continueS, _, _ => some (m, .cont)
+  -- `findPath`
+  | .assign, .var "r.path", .lit "[]Widget{}" => some ({ m with path := [] }, .norm)
+  | .define, .var x, .arg (.call (.var "r.childHasFocus")) (.var "r.lastFrame") =>
+    match m.frame with
+    | none => some ({ m with flags := (x, false) :: m.flags }, .norm)      -- the zero Surface: nil widget, no children
+    | some t => (env.selfC m.focused m.path t).map (fun r => ({ m with path := r.1, flags := (x, r.2) :: m.flags }, .norm))
+  | .assign, .var "r.path", .arg (.arg (.call (.var "append")) (.var "r.path")) (.var "r.root") =>
+    some ({ m with path := m.path ++ [m.root] }, .norm)
+  | .define, .var x, .int n => some ({ m with ints := (x, (n : Int)) :: m.ints }, .norm)
+  | .addAssign, .var x, .int n => (find m.ints x).map (fun v => ({ m with ints := (x, v + (n : Int)) :: m.ints }, .norm))
+  | .assign, .pair (.index (.var "r.path") (.var i)) b, e2 =>
+    if isSwap i (.pair (.index (.var "r.path") (.var i)) b) e2 then
+      match find m.ints i with
+      | some v => if v < 0 then none else (swapIdx m.path v.toNat (m.path.length - 1 - v.toNat)).map (fun p => ({ m with path := p }, .norm))
+      | none => none
+    else none
   | .define, .var x, .lit "hitResult{v2:v2,v3:v3,w:v0.Widget}" =>
     match find m.ints "v2", find m.ints "v3", find m.ids "v0.Widget" with
     | some c, some r, some w => some ({ m with hit := (x, ⟨c, r, w⟩) :: m.hit }, .norm)
@@ -89,7 +128,10 @@ def tatom (env : TEnv) (m : TM) (l : Line) : TRes :=
     | _, _, _, _ => none
   | .returnS, .var "true", _ => some (m, .retB true)
   | .returnS, .var "false", _ => some (m, .retB false)
-  | .returnS, .var x, _ => (find m.hitl x).map (fun hs => (m, .retH hs))
+  | .returnS, .var x, _ =>
+    match find m.hitl x with
+    | some hs => some (m, .retH hs)
+    | none => (find m.flags x).map (fun b => (m, .retB b))
   | _, _, _ => none
 
 def rangeKids (v : String) (body : TM → TRes) : List Kid → TM → TRes
@@ -100,6 +142,23 @@ def rangeKids (v : String) (body : TM → TRes) : List Kid → TM → TRes
     | some (m', .retH h) => some (m', .retH h)
     | some (m', .retB b) => some (m', .retB b)
     | some (m', _) => rangeKids v body ks m'
+
+/-- `for cond { body; post }`, one unit of fuel per iteration. -/
+def tloop (c : TM → Option Bool) (body post : TM → TRes) : Nat → TM → TRes
+  | 0, _ => none
+  | f + 1, m =>
+    match c m with
+    | none => none
+    | some false => some (m, .norm)
+    | some true =>
+      match body m with
+      | none => none
+      | some (m', .retH h) => some (m', .retH h)
+      | some (m', .retB b) => some (m', .retB b)
+      | some (m', _) =>
+        match post m' with
+        | none => none
+        | some (m'', _) => tloop c body post f m''
 
 def texec (env : TEnv) : Stmt → TM → TRes
   | .skip, m => some (m, .norm)
@@ -124,6 +183,7 @@ def texec (env : TEnv) : Stmt → TM → TRes
     match find m.trees l with
     | none => none
     | some t => rangeKids v (texec env body) t.ch m
+  | .loop c body post, m => tloop (fun m => tevBool env m c) (texec env body) (texec env post) (m.path.length + 1) m
   | _, _ => none
 
 /-- `SubSurface.containsPoint(col, row)` run from its body: the single `return <expr>`. -/
@@ -162,6 +222,14 @@ def runChildHasFocusD (body : Stmt) : Nat → Id → List Id → STree → Optio
     match texec env body (bindTree { focused := f, path := path } "v0" t) with
     | some (m, .retB b) => some (m.path, b)
     | _ => none
+
+/-- `f.findPath()` run from its body (the callee `f.childHasFocus` from ITS body): the new `f.path` and the result. -/
+def runFindPath (body chBody : Stmt) (focused root : Id) (frame : Option STree) : Option (List Id × Bool) :=
+  let depth := match frame with | none => 0 | some t => treeDepth t
+  let env : TEnv := ⟨fun _ _ _ => none, fun _ _ _ _ => none, runChildHasFocusD chBody (depth + 1)⟩
+  match texec env body { focused := focused, root := root, frame := frame } with
+  | some (m, .retB b) => some (m.path, b)
+  | _ => none
 
 def runChildHasFocus (body : Stmt) (f : Id) (path : List Id) (t : STree) : Option (List Id × Bool) :=
   runChildHasFocusD body (treeDepth t + 1) f path t
